@@ -64,6 +64,11 @@ def deep_snapshot(sc, pps):
         d["static_obstacles_on_lanelet"] = sn.idset(la.static_obstacles_on_lanelet)
         d["dynamic_obstacles_on_lanelet"] = ("s", repr(sorted((k, sorted(v)) for k, v in
                                                             la.dynamic_obstacles_on_lanelet.items())))
+    # answers of the spatial index at one interior point per lanelet (a read-only query, so part of what may not change)
+    pts = [0.5 * (np.asarray(la.left_vertices)[0] + np.asarray(la.right_vertices)[1]) for la in
+           sc.lanelet_network.lanelets]
+    if pts:
+        s["network"]["lookup_answers"] = ("s", repr([sorted(a) for a in sc.lanelet_network.find_lanelet_by_position(pts)]))
     for tl in sc.lanelet_network.traffic_lights:
         cyc = tl.traffic_light_cycle
         if cyc is not None and cyc.cycle_elements:
